@@ -1,5 +1,6 @@
 import Rpcx.Model.Atomic
 import Rpcx.Lemmas.MuxInv
+import Rpcx.Lemmas.MuxRet
 /-
   C05: every call completes exactly once, whatever fails and whenever – theorems about the
   multiplexer model for EVERY number of calls and EVERY event sequence (any interleaving of
@@ -79,6 +80,26 @@ theorem fail_fast (s : St) (c : Nat) (r : CallRec) (hr : s.calls[c]? = some r) (
     refine ⟨{ bump .shutdownErr r with phase := .finished }, ?_, by simp [bump, hs0], by simp [bump]⟩
     rw [setPhase_get, signal_get]
     simp [hr]
+
+
+/-- **A blocking caller returns once**: in every history, whatever a blocking caller – `Call`, or
+    `SendRaw` – has returned with is final: no later response, duplicate, peer close, `Close`, late
+    result of its own write or expiry of its context changes it.  (For `SendRaw` this rests on the
+    per-record invariant `Mux.RawOk`: a raw caller that has not come back from its write has not
+    returned anything, so the one overwriting step – "return the error of my write" – never
+    overwrites a result.) -/
+theorem returns_once (kinds : List (Bool × Bool)) (before after : List Ev) (c : Nat) (r : CallRec) (x : Outcome)
+    (h : (run (init kinds) before).calls[c]? = some r) (hx : r.ret = some x) :
+    ∃ r', (run (init kinds) (before ++ after)).calls[c]? = some r' ∧ r'.ret = some x := by
+  have hi := inv_run _ (inv_init kinds) before
+  have hr := retInv_run before _ (inv_init kinds) (retInv_init kinds)
+  have := ret_stable_run after _ hi hr c r x h hx
+  simpa [run, List.foldl_append] using this
+
+/-- non-vacuity: a raw caller whose reply arrives while it is still inside its write returns it after
+    the write; a later duplicate, a peer close and a Close change nothing -/
+example : ((run (init [(false, true)]) [.register 0, .frame ⟨0, false, false, false, false, 7, true⟩, .writeOk 0,
+      .frame ⟨0, false, false, false, false, 8, true⟩, .terminate, .close]).calls.map (·.ret)) = [some (.reply 7)] := by decide
 
 /-- flags are monotone: shutdown, once set, stays set (so "new calls fail promptly" persists) -/
 theorem shutdown_monotone (s : St) (ev : Ev) (h : s.shutdown = true) : (step s ev).shutdown = true := by
